@@ -55,8 +55,8 @@ TABLE_SELECTOR_RE = re.compile(
     r"(\[(?P<start_col>[^\]]+)\] *: *)?"
     r"(\[(?P<end_col>.+)\] *)?$")
 
-QUESTION_MARK_RE = re.compile(r'\?(?<!~)')
-STAR_RE = re.compile(r'\*(?<!~)')
+# pieces of a wildcard pattern: escaped (~* ~? ~~), wildcard, literal run
+WILDCARD_TOKENS_RE = re.compile(r'~[*?~]|[*?]|[^*?~]+|~')
 
 MAX_COL = 16384
 MAX_ROW = 1048576
@@ -1028,11 +1028,15 @@ def handle_ifs(args, op_range=None):
 
 
 def build_wildcard_re(lookup_value):
-    regex = QUESTION_MARK_RE.sub('.', STAR_RE.sub('.*', lookup_value))
-    if regex != lookup_value:
-        # this will be a regex match"""
-        compiled = re.compile(f'^{regex.lower()}$')
-        return lambda x: isinstance(x, str) and compiled.match(x.lower()) is not None
+    tokens = WILDCARD_TOKENS_RE.findall(lookup_value)
+    if any(t in '*?' or (len(t) == 2 and t[0] == '~') for t in tokens):
+        # this will be a regex match, everything but * and ? is literal
+        regex = ''.join(
+            '.*' if t == '*' else '.' if t == '?' else
+            re.escape((t[1:] if t[0] == '~' and len(t) == 2 else t).lower())
+            for t in tokens)
+        compiled = re.compile(regex, re.DOTALL)
+        return lambda x: isinstance(x, str) and compiled.fullmatch(x.lower()) is not None
     else:
         return None
 
